@@ -21,6 +21,30 @@ CLAIMED["C01"] = dict(cat="exploration",
    text="Totality by generated-input search: grammar-directed valid-but-odd programs (hand transcription of SyslParser.g4 with a small budget of odd tokens), near-miss mutants of corpus/generated specs and import closures with foreign members are compiled in a worker subprocess; any panic, process exit, stack overflow or reproduced overrun is a violation keyed by its first frame. Thorough adds a byte-level native fuzz target. Exploration is the only level the technique offers for 'all byte strings'.",
    note="trusts the worker protocol to attribute a death to the in-flight case; acceptance split per generator is reported so a mistranscribed grammar rule shows as a construct never accepted",
    technique="grammar-directed property-based generation + mutation + (thorough) coverage-guided fuzzing, crash oracle in a sandbox worker")
+CLAIMED["C13"] = dict(cat="exploration",
+   text="Generated call graphs (cycles, self calls, diamonds, calls nested in every block kind, returns anywhere, human/cron/hidden, blackbox and group-by options) x every endpoint as start; sequencediagram.GenerateSequenceDiag runs in a worker subprocess; a strict line reader of the emitted PlantUML checks declaration, activation balance, calls-only-while-active and block balance, and the call-arrow sequence must equal an independent reference walk of the model. A second population with dangling targets demands a diagram or an error, never a crash.",
+   note="trusts the PlantUML line reader and the reference walker written from the property statement; walks are pruned at 250/500 arrows",
+   technique="property-based testing against a reference call-tree walker + structural invariants over parsed output")
+CLAIMED["C14"] = dict(cat="exploration",
+   text="Generated call multigraphs over 2-8 apps with project views marking apps listed / pass-through / excluded (listed and excluded disjoint), incl. cyclic pass-through chains; plain, clustered and endpoint-analysis views generated in a worker; arrows parsed back and checked for soundness (a call statement behind every arrow, no excluded app) and completeness (every call from a listed app to a different non-excluded, non-hidden, non-human app is drawn), cross-checked against IntsBuilder.DepsOut; termination via the worker's stack bound.",
+   note="trusts the arrow reader ([label] as _n table) and the reading of 'listed' = apps named by the project endpoint",
+   technique="property-based testing: soundness/completeness oracle over parsed diagram vs. call multigraph extracted independently")
+CLAIMED["C15"] = dict(cat="exploration",
+   text="Generated data models (tuples, tables, enums, primitive aliases; primitive/optional/set/sequence/list and reference fields; local and cross-app refs, repeated targets, self refs, dotted names, short names reused across apps) rendered by datamodeldiagram in a worker; classes, field lines and relationship lines are parsed and compared as multisets with the model's type graph: one class per type, every field once with its type text, one line per referencing field, nothing extra.",
+   note="trusts the strict PlantUML class reader; direct mode only (project mode noted as outside the quantified domain)",
+   technique="property-based testing: parsed-output vs. type-graph multiset oracle")
+CLAIMED["C16"] = dict(cat="exploration",
+   text="Generated relational models over 1-3 files (acyclic FK graphs, composite/absent keys, autoinc, sized strings) and version chains from random edit scripts; emitted SQL is executed by a strict reference interpreter for exactly the emitted DDL subset (unknown statement = harness error). Create script: every table once, columns, PK, FKs, types, referenced-before-referencing. Delta: differential - catalog(create(old); delta) restricted to new's tables == catalog(create(new)); delta(v,v) changes nothing; chains of two deltas.",
+   note="trusts the DDL interpreter's PostgreSQL rules for the subset; FK cycles are outside C16's domain (acyclic) and handled by C20",
+   technique="property-based testing with a reference DDL interpreter; differential oracle for deltas over generated edit histories")
+CLAIMED["C17"] = dict(cat="exploration",
+   text="Corpus models (all .sysl files that compile) and generated models (deep statement nesting with siblings, typed return payloads with attributes, nested-array annotations, namespaced names, placeholders, events, mixins) are normalised by relmod.Normalize in a worker (2-5 times: equal relations as multisets, refusal stable) and every relation the property names is compared as a multiset of key tuples with an independent census of the compiled model, including full statement index paths.",
+   note="census written from the property statement, not from normalize.go; bit width and parameter constraints have no column in the schema and are only counted",
+   technique="property-based testing: independent census vs. relational image (multiset comparison), repetition for determinism")
+CLAIMED["C20"] = dict(cat="exploration",
+   text="Untidy-but-valid generated models (dangling call targets, dangling/one-segment/cyclic/recursive type references, empty apps, call cycles, FK cycles, pass-through views) x 21 command/option sets run with the sysl binary built from the working tree; oracle: terminates, no Go runtime crash on stderr, non-zero exit carries a message; crashes keyed by command and first repository frame so known sites do not mask new ones.",
+   note="sysl diagram needs headless Chrome (absent offline) and is not exercised; import/transform commands are covered by C11/C17 at library level",
+   technique="property-based CLI matrix (rapid) with crash-signature keyed findings")
 NOT_YET = {}
 def main():
     checks = []
